@@ -260,24 +260,48 @@ Fixpoint has_long17 (l : L) (c : ctx) (v : value) : bool :=
   | _, _ => false
   end.
 
+(* the layout a repaired tree would have: 1.7 arrays in the vanilla two-byte format *)
+Fixpoint to_spec (l : L) : L :=
+  match l with
+  | Layout.LPrim f p => @Layout.LPrim LP f (match p with PBytes17 => PBytes17V | q => q end)
+  | Layout.LSeq a b => @Layout.LSeq LP (to_spec a) (to_spec b)
+  | Layout.LVer g a b => @Layout.LVer LP g (to_spec a) (to_spec b)
+  | Layout.LOpt f a b => @Layout.LOpt LP f (to_spec a) (to_spec b)
+  | Layout.LRep f o a => @Layout.LRep LP f o (to_spec a)
+  | _ => l
+  end.
+
 (* Known findings (known_findings.jsonl, property C04):
    1  Handshake.Port is written as int16 and read back signed: ports >= 32768 decode to port - 65536
    2  a packet whose last field is an EMPTY length-prefixed byte array fails to decode with io.EOF
       (util.ReadBytesLen / ReadBytes17 use rd.Read, which reports EOF for a zero-length read at the end)
-   3  1.7 byte arrays are written with a one-byte length: arrays of 256 bytes or more do not round-trip *)
+   3  1.7 byte arrays are written with a one-byte length: arrays of 256 bytes or more do not round-trip
+   4  TabCompleteResponse.Decode (1.13+) keeps the previous offer's tooltip for an offer without one:
+      the re-encoding is longer than the original (type outside the fragment: judged on the bytes) *)
 Definition judge (c : case) : verdict :=
   let ctx := mkctx (cv c) (cb c) in
   match find_entry (tname c) packets with
   | None => VMismatch                       (* a registered type the translator did not see *)
-  | Some (Opaque _ _ _) => if bytes_roundtrip c then VOk else VViolation
+  | Some (Opaque _ _ _) =>
+      if bytes_roundtrip c then VOk
+      else if String.eqb (tname c) "packet.TabCompleteResponse" && (393 <=? cv c) then
+        match dec c, bytes2 c with
+        | DecOk 0%N, Some b2 => if Nat.ltb (List.length (bytes1 c)) (List.length b2) then VKnown 4 else VViolation
+        | _, _ => VViolation
+        end
+      else VViolation
   | Some (Fragment _ enc decl _) =>
       match tree enc ctx [([], env1 c)] with
       | None => VMismatch                   (* dump does not fit the layout: translator / harness disagree *)
       | Some t1 =>
-          let model_enc := match enc_L LP enc ctx t1 with Ok b => beq_bytes b (bytes1 c) | Err _ => false end in
-          let model_dec := match dec_L LP decl ctx (bytes1 c) with
-                           | Ok (t, []) => value_eqb t t1
-                           | _ => false end in
+          let enc_by (e : L) := match enc_L LP e ctx t1 with Ok b => beq_bytes b (bytes1 c) | Err _ => false end in
+          let dec_by (d : L) := match dec_L LP d ctx (bytes1 c) with
+                                | Ok (t, []) => value_eqb t t1
+                                | _ => false end in
+          (* the code as it is, or as it would be with 1.7 arrays repaired *)
+          let as_spec := negb (enc_by enc) && enc_by (to_spec enc) in
+          let model_enc := enc_by enc || as_spec in
+          let model_dec := if as_spec then dec_by (to_spec decl) else dec_by decl in
           let values_same := match tree decl ctx [([], env2 c)] with
                              | Some t2 => value_eqb t2 t1
                              | None => false end in
